@@ -291,6 +291,9 @@ func runC13(c *Check) {
 	c.ruleRequestFilledWhereFound("R18")
 	c.ruleSizesSubtractedBeforeCut("R19")
 	c.ruleMembershipByHashOnly("R20")
+	c.ruleGetterConsultsPrimary("R21", "state.(*State).BlockIsToBeRequested", "blocksToRequest")
+	c.ruleGetterConsultsPrimary("R21", "state.(*State).BlockIsRequested", "blocksRequested")
+	c.whoMayCall("R22", "(*state.State).AddBlockRequest", map[string]string{"handlers.(*HeadersHandler).Handle": "announced headers"}, 3)
 	c.ruleFilledRequestsGoOut("R12", "handlers.(*HeadersHandler).Handle", "spynode.(*Node).processBlocks")
 	c.ruleRemovedRangeIsCountedRange("R2", a.blocksRequested, a.pendingBlockSize)
 
